@@ -127,11 +127,31 @@ def _migrate_csv_to_rules(csv_file: str, config_dir: str, backup: bool = True) -
         csv_rules = load_merchant_rules(csv_file)
         content = csv_to_merchants_content(csv_rules)
 
-        # Write new file
-        with open(new_file, 'w', encoding='utf-8') as f:
+        # Write new file (complete or not at all: write a temporary file, then rename it)
+        tmp_file = new_file + '.tmp'
+        with open(tmp_file, 'w', encoding='utf-8') as f:
             f.write(content)
+        os.replace(tmp_file, new_file)
         print(f"  {C.GREEN}✓{C.RESET} Created: config/merchants.rules")
         print(f"      Converted {len(csv_rules)} merchant rules to new format")
+
+        # Update settings.yaml to reference new file BEFORE the CSV is moved away: if the
+        # process stops in between, the budget still finds either the CSV or the new file
+        # (the other order left it with no rules at all). The file is replaced in one step
+        # so that a partial write can never leave a truncated merchants_file: line.
+        settings_path = os.path.join(config_dir, 'settings.yaml')
+        settings_updated = False
+        if os.path.exists(settings_path):
+            with open(settings_path, 'r', encoding='utf-8') as f:
+                settings_content = f.read()
+            if 'merchants_file:' not in settings_content:
+                tmp_settings = settings_path + '.tmp'
+                with open(tmp_settings, 'w', encoding='utf-8') as f:
+                    f.write(settings_content)
+                    f.write('\n# Merchant rules file (migrated from CSV)\n')
+                    f.write('merchants_file: config/merchants.rules\n')
+                os.replace(tmp_settings, settings_path)
+                settings_updated = True
 
         # Backup old file under a name that is not taken (never overwrite an earlier backup)
         if backup and os.path.exists(csv_file):
@@ -143,17 +163,9 @@ def _migrate_csv_to_rules(csv_file: str, config_dir: str, backup: bool = True) -
             shutil.move(csv_file, backup_file)
             print(f"  {C.GREEN}✓{C.RESET} Backed up: merchant_categories.csv → {os.path.basename(backup_file)}")
 
-        # Update settings.yaml to reference new file
-        settings_path = os.path.join(config_dir, 'settings.yaml')
-        if os.path.exists(settings_path):
-            with open(settings_path, 'r', encoding='utf-8') as f:
-                content = f.read()
-            if 'merchants_file:' not in content:
-                with open(settings_path, 'a', encoding='utf-8') as f:
-                    f.write('\n# Merchant rules file (migrated from CSV)\n')
-                    f.write('merchants_file: config/merchants.rules\n')
-                print(f"  {C.GREEN}✓{C.RESET} Updated: config/settings.yaml")
-                print(f"      Added merchants_file: config/merchants.rules")
+        if settings_updated:
+            print(f"  {C.GREEN}✓{C.RESET} Updated: config/settings.yaml")
+            print(f"      Added merchants_file: config/merchants.rules")
 
         return True
     except Exception as e:
